@@ -93,7 +93,9 @@ theorem getattr2_conservative (k : KEnv) (h : Heap) (cur : Val) (n : String)
   have h1 := findMro_nil k hi (cur.clsName h) (fun ci => assocGet ci.props n) (by simp [assocGet])
   have h2 := findMro_nil k hi (cur.clsName h) (fun ci => indexOf? ci.fields n) (by simp [indexOf?])
   have h3 := findMro_nil k hi (cur.clsName h) (·.fallback) rfl
-  simp only [pyGetattr2, hm, h1, h2, h3, hn, Bool.not_true, Bool.false_eq_true, if_false]
+  have h4 : k.classAttr (cur.clsName h) n = none := by
+    simpa [KEnv.hasClassAttr] using hn
+  simp only [pyGetattr2, hm, h1, h2, h3, h4, Bool.not_true, Bool.false_eq_true, if_false]
   unfold pyGetattr instAttr
   cases cur with
   | ref a =>
